@@ -244,10 +244,28 @@ func (r *scopeRegistry) Subscope(parent *scope, prefix string, tags map[string]s
 	}
 
 	if s, ok := r.lockedLookup(subscopeBucket, sanitizedKey); ok {
-		if _, ok = r.lockedLookup(subscopeBucket, unsanitizedKey); !ok {
-			subscopeBucket.s[unsanitizedKey] = s
+		if !s.closed.Load() || s.testScope {
+			if _, ok = r.lockedLookup(subscopeBucket, unsanitizedKey); !ok {
+				subscopeBucket.s[unsanitizedKey] = s
+			}
+			return s
 		}
-		return s
+
+		// n.b. A closed scope can still be registered under its sanitized key
+		//      while its unsanitized key is already gone (a report pass removes
+		//      the keys one at a time). Never hand it out again: report it one
+		//      last time and replace it with a functional scope.
+		switch {
+		case parent.reporter != nil:
+			s.report(parent.reporter)
+		case parent.cachedReporter != nil:
+			s.cachedReport()
+		}
+		delete(subscopeBucket.s, sanitizedKey)
+		if curr, ok := r.lockedLookup(subscopeBucket, unsanitizedKey); ok && curr == s {
+			delete(subscopeBucket.s, unsanitizedKey)
+		}
+		s.clearMetrics()
 	}
 
 	allTags := mergeRightTags(parent.tags, tags)
